@@ -222,10 +222,22 @@ FOREIGN_NAMES = ["verifUnknown", "span", "div", "font", "center", "small", "big"
                  "{https://eml.ecoinformatics.org/eml-2.2.0}title", "eml:dataset", "title ", " title", ""]
 
 
+_UNMODELLED = []
+
+
+def unmodelled_eml_names():
+    """Names of EML elements that the tree under test has no rule for (spatialRaster, view, ... - whatever is missing from its tables)."""
+    if not _UNMODELLED:
+        from vlib import domain
+        from vlib.emlkit import mrule
+        _UNMODELLED.extend(dict.fromkeys(n for n in domain.EML_NAMES_POSSIBLY_UNMODELLED if n not in mrule.node_mappings))
+    return _UNMODELLED
+
+
 def foreign_node(rng, with_children=None):
     """An unknown element; one in three has element children of its own (inline markup inside a wrapper, a nested structure)."""
     from vlib.emlkit import Node
-    c = Node(rng.choice(FOREIGN_NAMES), content=rng.choice([None, "x", "some text"]))
+    c = Node(rng.choice(FOREIGN_NAMES) if rng.random() < 0.7 else rng.choice(unmodelled_eml_names() or FOREIGN_NAMES), content=rng.choice([None, "x", "some text"]))
     if with_children if with_children is not None else rng.random() < 0.34:
         for nm in rng.sample(["subscript", "emphasis", "para", "title", "verifDeep", "span"], rng.randint(1, 2)):
             k = Node(nm, content="inner")
@@ -388,7 +400,7 @@ def mutate(root, rng, gen, kind=None):
             return f"move {n.name} under {t.name}"
     if kind == "rename_unknown":
         n = rng.choice(nodes if len(nodes) == 1 else inner or nodes)
-        n.name = rng.choice(FOREIGN_NAMES)
+        n.name = rng.choice(FOREIGN_NAMES) if rng.random() < 0.7 else rng.choice(unmodelled_eml_names() or FOREIGN_NAMES)
         return f"rename to unknown {n.name!r}"
     if kind == "rename_known":
         n = rng.choice(inner or nodes)
